@@ -377,7 +377,7 @@ class JavaRenderer:
         elif k == "return":
             e.tok("return")
             if s[1] is not None:
-                self.events.append({"e": "returnExpr", "text": expr_text(s[1])})
+                self.events.append({"e": "returnExpr", "text": expr_text(s[1]), "hasNull": expr_has_null(s[1])})
                 self.expr(s[1], True, var_text="return")
             e.tok(";", glue=True)
         elif k == "filler":
@@ -449,12 +449,12 @@ class JavaRenderer:
         else:
             head = {"e": "enterMethod", "name": m["name"], "ret": gtext(m["ret"]), "annos": amodel, "params": params, "emptyParams": not params,
                     "startLine": nl_, "nameCol": nc}
-        # what the identifier listener reads for this declaration: ctx.GetStart(), the first modifier if it is an annotation,
-        # the non-annotation modifiers (class methods only)
+        # what the identifier listener reads for this declaration: ctx.GetStart(), the annotations among its modifiers, the other
+        # modifiers (not for constructors; a generic class method shows neither, see above)
         annos_ = m.get("annos", [])
         head["ident"] = {"startLine": (nl_ if m["kind"] == "ctor" else fn["startLine"]), "startCol": (nc if m["kind"] == "ctor" else startcol),
-                         "firstAnno": (anno_model(annos_[0]) if annos_ and not generic else None),
-                         "mods": (list(m.get("mods", [])) if (m["kind"] == "method" and not is_iface and not generic) else [])}
+                         "annos": ([anno_model(a) for a in annos_] if m["kind"] != "ctor" and not generic else []),
+                         "mods": (list(m.get("mods", [])) if (m["kind"] == "method" and not generic) else [])}
         self.events.append(head)
         e.tok("(", glue=True)
         for i, p in enumerate(m["params"]):
@@ -538,7 +538,14 @@ class JavaRenderer:
             self.events.append({"e": "enterInterface", "name": u["name"], "exts": [gtext(i) for i in u.get("impls", [])]})
         e.tok("{")
         e.indent += 1
-        for f in u.get("fields", []):
+        for f in list(u.get("fields", [])) + [None] + list(u.get("late_fields", [])):
+            if f is None:
+                # the members; then the fields that are declared after them
+                for m in u.get("members", []):
+                    self.member(m, u, facts)
+                if u.get("late_fields"):
+                    e.nl()
+                continue
             e.nl()
             for a in f.get("annos", []):
                 e.tok(anno_text(a))
@@ -558,8 +565,6 @@ class JavaRenderer:
             sl, sc = e.tok(";", glue=True)
             ev["stopLine"], ev["stopCol"] = sl, sc
             facts["fields"].append({"type": gtext(f["type"]), "name": f["name"], "mods": list(f.get("mods", []))})
-        for m in u.get("members", []):
-            self.member(m, u, facts)
         e.indent -= 1
         e.nl()
         e.tok("}")
@@ -600,6 +605,17 @@ def expr_text(x):
     raise ValueError(x)
 
 
+def expr_has_null(x):
+    """does the expression contain a null literal token?"""
+    if x is None or isinstance(x, str):
+        return False
+    if x[0] == "lit":
+        return x[1] == "null"
+    if x[0] == "name":
+        return False
+    return any(expr_has_null(y) for y in x[1:] if isinstance(y, tuple)) or any(expr_has_null(z) for y in x[1:] if isinstance(y, list) for z in y if isinstance(z, tuple))
+
+
 def lambda_params_text(ps):
     """GetText() of a lambda's parameter list: `(a,b)` or `(Ordero,Repor)`"""
     return "(" + ",".join(p if isinstance(p, str) else gtext(p[0]) + p[1] for p in ps) + ")"
@@ -608,8 +624,20 @@ def lambda_params_text(ps):
 def ident_events(events):
     """the events the identifier listener (java_identifier_listener.go) receives for the same file, in walker order"""
     out = []
+    pending = False      # an interface method whose exit callback is still to come (it fires after the body, if there is one)
+    depth = 0
     for ev in events:
         k = ev["e"]
+        if pending and depth == 0 and k in ("interfaceBodyDecl", "exitBody", "interfaceMethod"):
+            out.append({"e": "exitInterfaceMethod"})
+            pending = False
+        if k == "enterBlock":
+            depth += 1
+        elif k == "exitBlock":
+            depth -= 1
+            if pending and depth == 0:
+                out.append({"e": "exitInterfaceMethod"})
+                pending = False
         if k in ("pkg", "imp", "anno"):
             out.append(ev)
         elif k == "enterClass":
@@ -619,11 +647,12 @@ def ident_events(events):
         elif k in ("enterMethod", "interfaceMethod", "enterCtor"):
             i = ev["ident"]
             out.append({"e": {"enterMethod": "enterMethod", "interfaceMethod": "interfaceMethod", "enterCtor": "enterCtor"}[k], "name": ev["name"],
-                        "ret": ev.get("ret", ""), "firstAnno": i["firstAnno"], "mods": i["mods"],
+                        "ret": ev.get("ret", ""), "annos": i["annos"], "mods": i["mods"],
                         "startLine": i["startLine"], "startCol": i["startCol"], "stopLine": ev["stopLine"], "stopCol": ev["stopCol"],
                         "hasBody": True})
             if k == "interfaceMethod":
-                out.append({"e": "exitInterfaceMethod"})       # an interface method of a conventional unit has no body: exit follows at once
+                pending = True
+                depth = 0
         elif k == "exitMethod":
             out.append({"e": "exitMethod"})
         elif k == "exitCtor":
